@@ -1397,12 +1397,22 @@ func runCase(c jobCase) {
 		ctx := buildCtx{poff: c.Poff}
 		rows := toList(c.Expect)
 		canon := make([]interface{}, len(rows))
-		for i, r := range rows {
-			var rec Rec
-			ctx.fill(reflect.ValueOf(&rec).Elem(), r)
-			canon[i] = ctx.abstract(reflect.ValueOf(&rec).Elem())
+		// the rows are shaped like the struct that wrote the file; if this program's Rec has another shape they do not fit
+		shapeErr := protect(func() {
+			for i, r := range rows {
+				var rec Rec
+				ctx.fill(reflect.ValueOf(&rec).Elem(), r)
+				canon[i] = ctx.abstract(reflect.ValueOf(&rec).Elem())
+			}
+		})
+		if shapeErr != "" {
+			if len(shapeErr) > 200 {
+				shapeErr = shapeErr[:200]
+			}
+			emit(event{"ev": "Expect", "rows": rows, "shapeerr": shapeErr})
+		} else {
+			emit(event{"ev": "Expect", "rows": canon, "shapeerr": ""})
 		}
-		emit(event{"ev": "Expect", "rows": canon})
 		res := runReader(file, &source{data: file}, c.Poff, len(rows)*2+50, false)
 		emit(res.event("regen", nil))
 		return
